@@ -209,6 +209,9 @@ inline Number parseNumber(const char* s) {
   if (*s != '\0')
     return Number();
 
+  if (mantissa == 0)
+    return Number(is_negative ? -0.0f : 0.0f);
+
   // stay within the tables of powers of ten used by make_float()
   // (the mantissa has at most 17 digits)
   if (exponent > traits::exponent_max)
